@@ -128,7 +128,7 @@ fn history(cfg: &Cfg, rep: &mut Report, permissioned: bool, h: u64, steps: usize
         let max: i128 = *rng.pick(&[10i128, 10, 10, 0, -1, 1, 20_000]);
         let fee: i128 = *rng.pick(&[max, max - 1, max + 1, 1, 0, -1, 5, max / 2]);
         let max_live = e.ledger().max_live_until_ledger();
-        let exp: u32 = *rng.pick(&[cur, cur, cur + 1, cur + 50, cur.saturating_sub(1), max_live, max_live.saturating_add(1)]);
+        let exp: u32 = *rng.pick(&[cur, cur, cur + 1, cur + 50, cur.saturating_sub(1), max_live, max_live.saturating_add(1), 0, 1]);
         let fail_target = rng.chance(1, 8);
         let tfn = if fail_target { "fail" } else { "bump" };
         let targs: SVec<Val> = args!(e, 7u32);
